@@ -12,7 +12,7 @@
 // Every op prints one result line `r ...`; create() prints `new <oid> <object name> <uid> <euid>`.
 #include "/include/vcommon.h"
 #define REG "/c20/reg"
-#define RESERVED ({ "m", "u1a", "u1b", "u1c", "u2a", "u2b", "u2c", "bba", "bbb", "bbc", "roota", "rootb", "rootc", "odda", "oddb", "oddc" })
+#define RESERVED ({ "m", "se", "u1a", "u1b", "u1c", "u2a", "u2b", "u2c", "bba", "bbb", "bbc", "roota", "rootb", "rootc", "odda", "oddb", "oddc" })
 
 string oid;
 
@@ -78,6 +78,10 @@ string bp_oid (string path) {
 void create (mixed s) {
   string key, ops;
   int n;
+#ifdef C20_SIMUL
+  // driver start: neither the master nor the registry exist yet; later calls are reload_object(simul_efun object)
+  if (!find_object (REG)) { oid = "se"; return; }
+#endif
   if (stringp (s)) oid = s;
   announce ();
   REG->snap ();
@@ -137,14 +141,17 @@ string do_op (string s) {
     o = REG->get (w[1]);
     if (!o || REG->depth () > 0) r = "nobj";   // not from inside a create() script
     else if (w[1] == "m") {
-      // destruct of the master: the driver loads a new master (a load on behalf of this object) and makes it root
+      // destruct of the master: the driver loads a new master (a load on behalf of this object) and makes it root;
+      // a master without get_root_uid() is not reloaded (its uids would come from an unlogged creator_file answer)
+      if (!function_exists ("get_root_uid", o)) { r = "nobj"; break; }
       e = catch (destruct (o));
       if (!e) {
         o = master ();
-        VL ("new m " + file_name (o) + " " + us (getuid (o)) + " " + us (geteuid (o)));
+        VL ("new m /c20/master " + us (getuid (o)) + " " + us (geteuid (o)));   // file name: same for all master variants
         r = 1;
       }
     }
+    else if (w[1] == "se") { e = catch (destruct (o)); r = 1; }   // the driver refuses: error
     else { REG->unreg (w[1]); destruct (o); r = 1; }
     break;
   case "reload":
